@@ -37,7 +37,12 @@ def gen(ctx):
                 # shortcut), or set later through update_kwargs
                 src_kwargs=str(rng.choice(['none', 'none', 'ctor_obs_sigma', 'update_obs_sigma'])),
                 # seeds arrive as Python ints or NumPy integer scalars
-                seed_type=str(rng.choice(['int', 'int', 'int64', 'int32', 'uint32'])))
+                seed_type=str(rng.choice(['int', 'int', 'int64', 'int32', 'uint32'])),
+                # several evaluation targets in one call, requested in any order: the documented order of the
+                # returned intervals is [experimental, parameter, model]
+                multi=[['parameter', 'model'], ['model', 'parameter'], ['model', 'experimental', 'parameter'],
+                       ['experimental', 'model'], ['parameter', 'experimental']][int(rng.integers(0, 5))]
+                if rng.random() < 0.45 else None)
 
 
 def snapshot(V):
@@ -119,6 +124,29 @@ def check_case(ctx, case):
     ok_rows = ~np.isnan(r1).any(axis=1)
     if np.any(r1[ok_rows, 0] > r1[ok_rows, 1] * (1 + 1e-12) + 1e-300) or np.any(r1[ok_rows, 1] > r1[ok_rows, 2] * (1 + 1e-12) + 1e-300):
         return fail('not-ordered', 'lower <= median <= upper violated: %r' % r1[ok_rows][:3].tolist())
+    # several targets in one call: one interval matrix per requested target, in the documented order, each equal to
+    # what the single-target call with the same seed returns (the members are the same)
+    if case.get('multi'):
+        order = [e for e in ('experimental', 'parameter', 'model') if e in case['multi']]
+        try:
+            with quiet():
+                rm = propagate(V, **dict(args, evalf=list(case['multi'])))
+                singles = [r1 if e == case['evalf'] else np.asarray(propagate(V, **dict(args, evalf=e)), float) for e in order]
+        except (RuntimeError, ValueError) as e:
+            ctx.reject('multi:' + type(e).__name__)
+            singles = None
+        if singles is not None:
+            ctx.count('multi_evalf:' + '+'.join(case['multi']))
+            if not isinstance(rm, list) or len(rm) != len(order):
+                return fail('multi-evalf', 'evalf=%r returns %s instead of %d interval matrices' % (
+                    case['multi'], type(rm).__name__, len(order)))
+            for name, got, want in zip(order, rm, singles):
+                got = np.asarray(got, float)
+                if got.shape != want.shape or not all_close(got.ravel().tolist(), want.ravel().tolist(), rel=1e-9,
+                                                            abs_=1e-9 * max(1e-12, float(np.nanmax(np.abs(want))))):
+                    return fail('multi-evalf', 'evalf=%r: the interval matrix in the position documented for %r has shape %r and '
+                                'differs from the single-target result (shape %r) with the same seed' % (
+                                    case['multi'], name, got.shape, want.shape))
     # zero noise: all three equal the source's own result
     if case['sigma'] == 0:
         with quiet():
